@@ -294,9 +294,12 @@ fn run_case(case: &Case) -> Outcome {
             let m = &METAS[i];
             let lvl = rank_of(i);
             let f8 = f8_applies(&dirs, i);
-            if f8 && f8_open && !case.no_steer {
+            // F8 is a wrong `always` (a wrong `never` under a `not` combinator): for such a
+            // (directive, span) pair the interest clauses are skipped, the max-level-hint clause
+            // still applies
+            let f8_skip = f8 && f8_open && !case.no_steer;
+            if f8_skip {
                 excluded += 1;
-                continue;
             }
             // A) ask dynamically, then dispatch
             let en = d.enabled(m);
@@ -306,11 +309,12 @@ fn run_case(case: &Case) -> Outcome {
             }
             let fail = |clause: &str, detail: String| {
                 Outcome::fail(
-                    if f8 { "F8: EnvFilter answers always for a span named by a span-scoped directive whose level is below the span's level, although enabled() rejects it".to_string() } else { format!("{clause} {tag}") },
+                    if f8 && clause.starts_with("summary says") { "F8: EnvFilter answers always for a span named by a span-scoped directive whose level is below the span's level, although enabled() rejects it".to_string() } else { format!("{clause} {tag}") },
                     format!("metadata #{i} ({} {:?} level {} target {:?}) in context {ci}: {detail}; interest {:?} hint {:?}; stack = {}", if m.is_span() { "span" } else { "event" }, m.name(), lvl, m.target(), interests[i], hint, serde_json::to_string(case).unwrap_or_default()),
                 )
             };
             match interests[i] {
+                I::Always | I::Never if f8_skip => {}
                 I::Never => {
                     checked_static += 1;
                     if !ra.is_empty() {
@@ -332,7 +336,10 @@ fn run_case(case: &Case) -> Outcome {
             }
             if let Some(h) = hint {
                 if lvl > h && !ra.is_empty() {
-                    return fail("max-level hint is below a level a layer accepts;", format!("hint rank {h}, level rank {lvl}, delivered to leaves {ra:?}"));
+                    return Outcome::fail(
+                        format!("max-level hint is below a level a layer accepts; {tag}"),
+                        format!("metadata #{i} ({} {:?} level {} target {:?}) in context {ci}: hint rank {h}, level rank {lvl}, delivered to leaves {ra:?}; interest {:?}; stack = {}", if m.is_span() { "span" } else { "event" }, m.name(), lvl, m.target(), interests[i], serde_json::to_string(case).unwrap_or_default()),
+                    );
                 }
             }
         }
